@@ -23,12 +23,14 @@ def sliceL {α : Type} (x : List α) (a b : Option Int) : List α :=
 /-- `s[a:b]` -/
 def slice (x : Str) (a b : Option Int) : Str := sliceL x a b
 
+/-- keep an element, then skip `k - 1`; `j` = number of elements still to skip -/
+def everyNthGo {α : Type} (k : Nat) : List α → Nat → List α
+  | [], _ => []
+  | a :: t, 0 => a :: everyNthGo k t (k - 1)
+  | _ :: t, j + 1 => everyNthGo k t j
+
 /-- every `k`-th element starting at 0 (`k ≥ 1`) -/
-def everyNth {α : Type} (k : Nat) : List α → List α
-  | [] => []
-  | a :: t => a :: everyNth k (t.drop (k - 1))
-termination_by l => l.length
-decreasing_by simp; omega
+def everyNth {α : Type} (k : Nat) (l : List α) : List α := everyNthGo k l 0
 
 /-- `x[a:b:k]` for `k ≥ 1` -/
 def sliceStepL {α : Type} (x : List α) (a b : Option Int) (k : Nat) : List α :=
@@ -58,13 +60,19 @@ def chars (x : Str) : List Str := x.map (fun c => [c])
 
 /-! ## searching -/
 
+/-- first position at which `sub` occurs in `x`, counted from `off` -/
+def findAux (sub : Str) : Str → Nat → Option Nat
+  | [], off => if sub.isEmpty then some off else none
+  | c :: t, off => if sub.isPrefixOf (c :: t) then some off else findAux sub t (off + 1)
+
 /-- first index `i ≥ start` at which `sub` occurs in `x` -/
 def findFrom (x sub : Str) (start : Nat) : Option Nat :=
-  (List.range (x.length + 1 - start)).findSome? (fun k =>
-    if sub.isPrefixOf (x.drop (start + k)) then some (start + k) else none)
+  if start ≤ x.length then findAux sub (x.drop start) start else none
 
 /-- `sub in x` (substring test) -/
-def strIn (sub x : Str) : Bool := (findFrom x sub 0).isSome
+def strIn (sub : Str) : Str → Bool
+  | [] => sub.isEmpty
+  | c :: t => sub.isPrefixOf (c :: t) || strIn sub t
 
 /-- `x.find(sub)` -/
 def find (x sub : Str) : Int :=
@@ -84,17 +92,16 @@ def indexL {α : Type} [BEq α] (l : List α) (v : α) : R Int :=
   | some i => .ok i
   | none => raise .valueError
 
+/-- number of non-overlapping occurrences of a non-empty `sub`, scanning left to right;
+`skip` = characters of the current occurrence still to pass over -/
+def countGo (sub : Str) : Str → Nat → Nat
+  | [], _ => 0
+  | c :: t, 0 => if sub.isPrefixOf (c :: t) then countGo sub t (sub.length - 1) + 1 else countGo sub t 0
+  | _ :: t, skip + 1 => countGo sub t skip
+
 /-- `x.count(sub)` (non-overlapping) -/
 def count (x sub : Str) : Int :=
-  if sub.isEmpty then x.length + 1 else
-  let rec go (fuel : Nat) (pos : Nat) (acc : Nat) : Nat :=
-    match fuel with
-    | 0 => acc
-    | fuel + 1 =>
-      match findFrom x sub pos with
-      | some i => go fuel (i + sub.length) (acc + 1)
-      | none => acc
-  go (x.length + 1) 0 0
+  if sub.isEmpty then x.length + 1 else countGo sub x 0
 
 def startswith (x p : Str) : Bool := p.isPrefixOf x
 def endswith (x p : Str) : Bool := p.isSuffixOf x
@@ -125,31 +132,35 @@ def join (sep : Str) : List Str → Str
 /-- `s * n` -/
 def repeatStr (x : Str) (n : Int) : Str := (List.replicate n.toNat x).flatten
 
+/-- replace the non-overlapping occurrences of a non-empty `old`, scanning left to right;
+`skip` = characters of the current occurrence still to pass over -/
+def replaceGo (old new : Str) : Str → Nat → Str
+  | [], _ => []
+  | c :: t, 0 =>
+    if old.isPrefixOf (c :: t) then new ++ replaceGo old new t (old.length - 1)
+    else c :: replaceGo old new t 0
+  | _ :: t, skip + 1 => replaceGo old new t skip
+
 /-- `x.replace(old, new)` (all occurrences, left to right, non-overlapping) -/
 def replace (x old new : Str) : Str :=
   if old.isEmpty then
     new ++ (x.map (fun c => c :: new)).flatten
-  else
-    let rec go (fuel : Nat) (rest : Str) (acc : Str) : Str :=
-      match fuel with
-      | 0 => acc ++ rest
-      | fuel + 1 =>
-        match findFrom rest old 0 with
-        | some i => go fuel (rest.drop (i + old.length)) (acc ++ rest.take i ++ new)
-        | none => acc ++ rest
-    go (x.length + 1) x []
+  else replaceGo old new x 0
+
+/-- split at the non-overlapping occurrences of a non-empty `sep`, scanning left to right;
+`skip` = characters of the current separator still to pass over, `cur` = the current part (reversed),
+`left` = splits still allowed (`none` = unlimited) -/
+def splitGo (sep : Str) : Str → Nat → Str → Option Nat → List Str
+  | [], _, cur, _ => [cur.reverse]
+  | c :: t, 0, cur, left =>
+    if left != some 0 && sep.isPrefixOf (c :: t) then
+      cur.reverse :: splitGo sep t (sep.length - 1) [] (left.map (· - 1))
+    else splitGo sep t 0 (c :: cur) left
+  | _ :: t, skip + 1, cur, left => splitGo sep t skip cur left
 
 /-- `x.split(sep)` with a non-empty separator and optional maxsplit (`none` = unlimited) -/
 def splitOn (x sep : Str) (maxsplit : Option Nat := none) : List Str :=
-  let rec go (fuel : Nat) (rest : Str) (acc : List Str) (left : Option Nat) : List Str :=
-    match fuel with
-    | 0 => (rest :: acc).reverse
-    | fuel + 1 =>
-      if left == some 0 then (rest :: acc).reverse else
-      match findFrom rest sep 0 with
-      | some i => go fuel (rest.drop (i + sep.length)) (rest.take i :: acc) (left.map (· - 1))
-      | none => (rest :: acc).reverse
-  go (x.length + 1) x [] maxsplit
+  splitGo sep x 0 [] maxsplit
 
 /-- `x.rsplit(sep, maxsplit)` with a non-empty separator -/
 def rsplitOn (x sep : Str) (maxsplit : Option Nat := none) : List Str :=
@@ -169,8 +180,9 @@ def strLe (x y : Str) : Bool := !strLt y x
 def sumInt (l : List Int) : Int := l.foldl (· + ·) 0
 
 /-- `enumerate(l, start)` -/
-def enumerate {α : Type} (l : List α) (start : Int := 0) : List (Int × α) :=
-  l.zipIdx.map (fun (a, i) => ((i : Int) + start, a))
+def enumerate {α : Type} : List α → (start : Int := 0) → List (Int × α)
+  | [], _ => []
+  | a :: t, start => (start, a) :: enumerate t (start + 1)
 
 /-- `range(a, b)` -/
 def range (a b : Int) : List Int := (List.range (b - a).toNat).map (fun (i : Nat) => a + (i : Int))
